@@ -694,6 +694,53 @@ fn tretry_t<T: V + Encode<()> + CborLen<()>>(val: &str) -> String {
     format!("same {}", hex(&T::canon(first)))
 }
 
+/// `tsink <type> <value>`: the value's `Encode` impl into bounded sinks of every capacity 0 ..= len + 1 (all of them up to 48 bytes, then a
+/// sample): a plain `&mut [u8]` and a `Cursor<&mut [u8]>`.  It must succeed exactly when the capacity is at least the length of the
+/// encoding; a failure must be a WRITE error; what was accepted is a prefix of the encoding, nothing beyond the capacity is touched.
+/// `fits <len>` or the first discrepancy.
+fn tsink_t<T: V + Encode<()> + CborLen<()>>(val: &str) -> String {
+    use minicbor::encode::write::Cursor;
+    let mut p = P::new(val);
+    let v = match T::parse(&mut p) { Some(v) if p.done() => v, _ => return "bad-op".into() };
+    let full = match minicbor::to_vec(&v) { Ok(b) => b, Err(e) => return format!("err {}", eclass(&e)) };
+    let n = full.len();
+    let mut caps: Vec<usize> = (0 ..= n.min(48)).collect();
+    for c in [n / 2, n.saturating_sub(2), n.saturating_sub(1), n, n + 1] { if !caps.contains(&c) { caps.push(c) } }
+    for cap in caps {
+        // plain slice (fills what fits? no: all or nothing per write call; whatever it does, the written part is a prefix)
+        let mut buf = vec![0xEEu8; cap + 8];
+        let (head, canary) = buf.split_at_mut(cap);
+        let mut sl: &mut [u8] = head;
+        let r = minicbor::encode(&v, &mut sl);
+        let room = sl.len();
+        let written = cap - room;
+        if canary.iter().any(|b| *b != 0xEE) { return format!("canary slice cap={}", cap) }
+        match r {
+            Ok(()) => { if cap < n || written != n || buf[.. n] != full[..] { return format!("slice cap={} accepted although {} bytes are needed / wrote {}", cap, n, written) } }
+            Err(e) => {
+                if cap >= n { return format!("slice cap={} refused although {} bytes fit: {}", cap, n, eclass(&e)) }
+                if !e.is_write() { return format!("slice cap={} not-a-write-error {}", cap, eclass(&e)) }
+                if written > cap || buf[.. written] != full[.. written] { return format!("slice cap={} accepted bytes are not a prefix ({} written)", cap, written) }
+            }
+        }
+        let mut buf = vec![0xEEu8; cap + 8];
+        let (head, canary) = buf.split_at_mut(cap);
+        let mut cur = Cursor::new(&mut head[..]);
+        let r = minicbor::encode(&v, &mut cur);
+        let pos = cur.position();
+        if canary.iter().any(|b| *b != 0xEE) { return format!("canary cursor cap={}", cap) }
+        match r {
+            Ok(()) => { if cap < n || pos != n || buf[.. n] != full[..] { return format!("cursor cap={} accepted although {} bytes are needed / position {}", cap, n, pos) } }
+            Err(e) => {
+                if cap >= n { return format!("cursor cap={} refused although {} bytes fit: {}", cap, n, eclass(&e)) }
+                if !e.is_write() { return format!("cursor cap={} not-a-write-error {}", cap, eclass(&e)) }
+                if pos > cap || buf[.. pos] != full[.. pos] { return format!("cursor cap={} accepted bytes are not a prefix (position {})", cap, pos) }
+            }
+        }
+    }
+    format!("fits {}", n)
+}
+
 thread_local! { pub static PLAIN: std::cell::Cell<bool> = std::cell::Cell::new(false); }
 
 fn tdec_t<T: V + Decode<'static, ()>>(h: &str) -> String {
@@ -722,14 +769,14 @@ fn rustname(s: &str) -> String {
     s.chars().filter(|c| !c.is_whitespace()).collect::<String>().replace("'static,", "").replace("'static", "")
 }
 
-pub struct Entry { pub name: String, pub desc: String, pub gdesc: String, pub flags: &'static str, enc: fn(&str) -> String, dec: fn(&str) -> String, retry: fn(&str) -> String }
+pub struct Entry { pub name: String, pub desc: String, pub gdesc: String, pub flags: &'static str, enc: fn(&str) -> String, dec: fn(&str) -> String, retry: fn(&str) -> String, sink: fn(&str) -> String }
 
 macro_rules! registry {
     ($( $(#[$flag:ident])? $t:ty;)*) => {
         pub fn registry() -> Vec<Entry> { vec![$( registry!(@entry $($flag)? ; $t) ),*] }
     };
-    (@entry ; $t:ty) => { Entry { name: rustname(stringify!($t)), desc: <$t as V>::desc(false), gdesc: <$t as V>::desc(true), flags: "-", enc: tenc_t::<$t>, dec: tdec_t::<$t>, retry: tretry_t::<$t> } };
-    (@entry enconly ; $t:ty) => { Entry { name: rustname(stringify!($t)), desc: <$t as V>::desc(false), gdesc: <$t as V>::desc(true), flags: "enconly", enc: tenc_t::<$t>, dec: no_dec, retry: tretry_t::<$t> } };
+    (@entry ; $t:ty) => { Entry { name: rustname(stringify!($t)), desc: <$t as V>::desc(false), gdesc: <$t as V>::desc(true), flags: "-", enc: tenc_t::<$t>, dec: tdec_t::<$t>, retry: tretry_t::<$t>, sink: tsink_t::<$t> } };
+    (@entry enconly ; $t:ty) => { Entry { name: rustname(stringify!($t)), desc: <$t as V>::desc(false), gdesc: <$t as V>::desc(true), flags: "enconly", enc: tenc_t::<$t>, dec: no_dec, retry: tretry_t::<$t>, sink: tsink_t::<$t> } };
 }
 
 type Big16 = (u8, u16, u32, u64, i8, i16, i32, i64, bool, char, String, (), Option<u8>, Vec<u8>, Int, Tag);
@@ -796,8 +843,8 @@ registry! {
     Duration; SystemTime; Ipv4Addr; Ipv6Addr; IpAddr; SocketAddrV4; SocketAddrV6; SocketAddr;
 }
 
-thread_local! { static REG: HashMap<String, (fn(&str) -> String, fn(&str) -> String, fn(&str) -> String)> =
-    registry().into_iter().map(|e| (e.name, (e.enc, e.dec, e.retry))).collect(); }
+thread_local! { static REG: HashMap<String, (fn(&str) -> String, fn(&str) -> String, fn(&str) -> String, fn(&str) -> String)> =
+    registry().into_iter().map(|e| (e.name, (e.enc, e.dec, e.retry, e.sink))).collect(); }
 
 /// `hcore tlist`: `<rustname> <desc> <gendesc> <flags>` per registered instantiation.
 pub fn tlist() {
@@ -809,10 +856,11 @@ pub fn warm() { REG.with(|r| { let _ = r.len(); }) }
 pub fn run_enc(w: &[&str]) -> String { run(w, 0) }
 pub fn run_dec(w: &[&str]) -> String { run(w, 1) }
 pub fn run_retry(w: &[&str]) -> String { run(w, 2) }
+pub fn run_sink(w: &[&str]) -> String { run(w, 3) }
 
 fn run(w: &[&str], which: u8) -> String {
     if w.len() != 2 { return "bad-op".into() }
-    let f = match REG.with(|r| r.get(w[0]).copied()) { Some((e, d, t)) => match which { 0 => e, 1 => d, _ => t }, None => return "bad-op".into() };
+    let f = match REG.with(|r| r.get(w[0]).copied()) { Some((e, d, t, k)) => match which { 0 => e, 1 => d, 2 => t, _ => k }, None => return "bad-op".into() };
     arena_clear();
     let r = f(w[1]);
     arena_clear();
